@@ -55,6 +55,7 @@ from psyclone.psyir.nodes.directive import (StandaloneDirective,
                                             RegionDirective)
 from psyclone.psyir.nodes.intrinsic_call import IntrinsicCall
 from psyclone.psyir.nodes.loop import Loop
+from psyclone.psyir.nodes.omp_directives import OMPDirective
 from psyclone.psyir.nodes.psy_data_node import PSyDataNode
 from psyclone.psyir.nodes.reference import Reference
 from psyclone.psyir.nodes.routine import Routine
@@ -96,6 +97,13 @@ class ACCRegionDirective(ACCDirective, RegionDirective, metaclass=abc.ABCMeta):
         # We need to make sure to call the right constructor here:
         # pylint: disable=bad-super-call
         super(RegionDirective, self).validate_global_constraints()
+
+        # OpenMP and OpenACC constructs cannot be nested inside each other.
+        if self.ancestor(OMPDirective) or self.walk(OMPDirective):
+            raise GenerationError(
+                f"OpenMP directives cannot be mixed with OpenACC ones but "
+                f"'{type(self).__name__}' is inside, or contains, an OpenMP "
+                f"directive.")
 
         data_nodes = self.walk((PSyDataNode, CodeBlock))
         if data_nodes:
@@ -158,6 +166,20 @@ class ACCRegionDirective(ACCDirective, RegionDirective, metaclass=abc.ABCMeta):
 class ACCStandaloneDirective(ACCDirective, StandaloneDirective,
                              metaclass=abc.ABCMeta):
     ''' Base class for all standalone OpenACC directive statements. '''
+
+    def validate_global_constraints(self):
+        '''
+        Perform validation checks that can only be done at code-generation
+        time.
+
+        :raises GenerationError: if this directive is within an OpenMP region.
+
+        '''
+        if self.ancestor(OMPDirective):
+            raise GenerationError(
+                f"OpenMP directives cannot be mixed with OpenACC ones but "
+                f"'{type(self).__name__}' is inside an OpenMP directive.")
+        super().validate_global_constraints()
 
 
 class ACCRoutineDirective(ACCStandaloneDirective):
@@ -1104,6 +1126,7 @@ class ACCAtomicDirective(ACCRegionDirective):
             raise GenerationError(
                 f"Statement '{self.children[0].debug_string()}' is not a "
                 f"valid OpenACC Atomic statement.")
+        super().validate_global_constraints()
 
 
 # For automatic API documentation generation
